@@ -2,9 +2,11 @@
 import faulthandler
 import sys
 
+from .probes import linecov
 from .runner import run_shard
 
 if __name__ == "__main__":
     pid, tier, seed, shard, nshards, budget, out = sys.argv[1:8]
+    linecov.install()
     faulthandler.dump_traceback_later(float(budget) * 3 + 100, exit=True)
     run_shard(pid, tier, int(seed), int(shard), int(nshards), float(budget), out)
